@@ -79,6 +79,14 @@ def run(prop, path):
         recs, vs = engine_pure.validate([v], "pure-stepmatch", "Trace_StepMatch.tla", "c17replay")
         bad = vs[0]["bad"] + vs[0]["order"]
         log(json.dumps(vs[0], indent=1)[:2000])
+    elif prop == "C19":
+        import engine_pure
+        # the zoo is compiled in: look the stored query up again
+        q = payload["query"]
+        res = engine_pure.check_c19("quick")
+        bad = [v for v in res["violations"]
+               if v["replay"]["query"]["kw"] == q["kw"] and v["replay"]["query"]["text"] == q["text"]]
+        log(json.dumps({"query": [q["kw"], q["text"]], "still_bad": [b["what"] for b in bad]}, indent=1))
     elif prop == "C18":
         recs, vs = _vector("pure-retry", "Trace_RetryOpts.tla", [dict(payload["record"], id="replay")])
         bad = vs[0]["bad"]
